@@ -38,7 +38,7 @@ def run_impl(prop, case):
     import impl, signal
     lines = prop.lines(case)
     signal.signal(signal.SIGALRM, _alarm)
-    signal.alarm(int(os.environ.get("VERIF_CASE_TIMEOUT", "20")))
+    signal.alarm(int(os.environ.get("VERIF_CASE_TIMEOUT", str(getattr(prop, "case_timeout", 20)))))
     try:
         outs = norm(impl.run_case(lines, case.get("ids", "int")))
     finally:
@@ -144,7 +144,7 @@ def work(args):
                                             "impl": outs[i] if i < len(outs) else None, "model": mo[i] if i < len(mo) else None,
                                             "impl_fails": fails[:3]})
                 try:
-                    mf = judge(prop, case, mo, mvar)
+                    mf = [] if (skip and any(skip(l) for l in lines)) else judge(prop, case, mo, mvar)
                 except Exception:
                     mf = [{"clause": "model-judge-crash", "detail": traceback.format_exc()[-400:]}]
                 fails_tagged = []
@@ -359,9 +359,13 @@ def main():
 
     # evidence
     wall = time.time() - t0
+    proved = bool(obl["ok"] and obl.get("theorems"))
     ev = {
-        "property_id": pid, "tier": tier, "seed": seed, "level": "proof",
+        "property_id": pid, "tier": tier, "seed": seed, "level": "proof" if proved else "other",
         "coverage": {
+            "explanation": ("theorems %s about the Lean model, kernel-checked on this run; model tied to /repo by the correspondence run counted below" % obl.get("theorems"))
+            if proved else ("no theorem discharged on this run (%s); this run is a model/implementation correspondence plus an oracle search only"
+                            % ("proof obligations BROKEN" if not obl["ok"] else "none registered for this property")),
             "obligations": max(1, len(obl.get("theorems", []))) if obl["ok"] else max(1, len(obl.get("theorems", [])) + len(obl.get("failed", [])) or 1),
             "discharged": len(obl.get("theorems", [])) if obl["ok"] else 0,
             "checker_cmd": obl.get("checker_cmd", "cd /verif/lean && lake build"),
